@@ -682,6 +682,18 @@ func (la *LockAudit) propagate() {
 							continue
 						}
 						arg := ev.Args[r.param]
+						// the address of an embedded struct stands for the object that embeds it (the guarded
+						// fields moved into an embedded helper type whose methods take &x.embedded as receiver)
+						for k := 0; k < 3; k++ {
+							fa, isFA := arg.V.(*ssa.FieldAddr)
+							if !isFA {
+								break
+							}
+							if fv := fieldVar(fa.X.Type(), fa.Field); fv == nil || !fv.Embedded() {
+								break
+							}
+							arg = frameResolve(RV{arg.F, fa.X})
+						}
 						if !isGo && holds(held, arg, r.field, r.mode == 'W') {
 							continue
 						}
@@ -765,6 +777,15 @@ func (la *LockAudit) propagate() {
 func (la *LockAudit) dynSitesHold(f *ssa.Function) bool {
 	sig := f.Signature
 	want := types.NewSignatureType(nil, nil, nil, sig.Params(), sig.Results(), sig.Variadic())
+	// the same method used as a method expression, (*T).m: the receiver is the first parameter
+	var wantExpr *types.Signature
+	if recv := sig.Recv(); recv != nil {
+		ps := []*types.Var{types.NewParam(token.NoPos, nil, "", recv.Type())}
+		for i := 0; i < sig.Params().Len(); i++ {
+			ps = append(ps, sig.Params().At(i))
+		}
+		wantExpr = types.NewSignatureType(nil, nil, nil, types.NewTuple(ps...), sig.Results(), sig.Variadic())
+	}
 	sites := 0
 	ok := true
 	for _, g := range la.fns {
@@ -774,7 +795,7 @@ func (la *LockAudit) dynSitesHold(f *ssa.Function) bool {
 				if !strings.HasPrefix(ev.Label, "call:dyn:") || ev.Fn.V == nil {
 					return
 				}
-				if !types.Identical(ev.Fn.V.Type().Underlying(), want) {
+				if !types.Identical(ev.Fn.V.Type().Underlying(), want) && (wantExpr == nil || !types.Identical(ev.Fn.V.Type().Underlying(), wantExpr)) {
 					return
 				}
 				sites++
